@@ -30,9 +30,10 @@ from .bitexpr import ExprMixin
 from .bitcall import CallMixin
 from .bitstmt import StmtMixin
 from .bitobj import ObjMixin
+from .bitlin import LinMixin, Lin
 
 
-class Interp(ExprMixin, CallMixin, StmtMixin, ObjMixin, Joiner):
+class Interp(ExprMixin, CallMixin, StmtMixin, ObjMixin, LinMixin, Joiner):
     """One interpreter per binding; collects mask events, refusal sites and problems."""
 
     def __init__(self, facts):
@@ -225,7 +226,7 @@ def summarise_binding(facts, mnemonic, binding_name=None):
         result = interp.run_function(fv, [], kwargs, st)
         dead = st.dead
         if not dead:
-            if isinstance(result, (Param, View, ModVal, Maybe)):
+            if isinstance(result, (Param, View, ModVal, Maybe, Lin)):
                 result = interp.to_bits(result, st, fdef)
             if not isinstance(result, (Bits, int)) or isinstance(result, bool):
                 raise Unsupported('{} returns {} instead of an instruction word'.format(func_name, type(result).__name__))
